@@ -187,20 +187,21 @@ deriving Repr, DecidableEq
 
 namespace Pool
 
-/-- `alloc(args…)`: returns the block the object was constructed in -/
-def alloc (p : Pool) : Pool × Nat :=
-  let r : Pool × Nat := match p.parked with
-    | [] => ({ p with nextBlk := p.nextBlk + 1 }, p.nextBlk)
-    | b :: rest => ({ p with parked := rest, freeNum := p.freeNum - 1 }, b)
-  let p1 := r.1
-  let a := p1.stat.allocT + 1
-  let cur := a - p1.stat.freeT
-  ({ p1 with ctor := p1.ctor + 1,
-             stat := { p1.stat with allocT := a, peakA := if cur > p1.stat.peakA then cur else p1.stat.peakA } }, r.2)
+/-- `alloc()` up to the constructor call: take the head of the free list (unlinking it and
+decrementing `free_number_` NOW) or `malloc` a block -/
+def allocA (p : Pool) : Pool × Nat :=
+  match p.parked with
+  | [] => ({ p with nextBlk := p.nextBlk + 1 }, p.nextBlk)
+  | b :: rest => ({ p with parked := rest, freeNum := p.freeNum - 1 }, b)
 
-/-- `free(p)` -/
-def free (p : Pool) (b : Nat) : Pool :=
-  let p0 := { p with dtor := p.dtor + 1 }
+/-- `alloc()` after the constructor has returned: the statistics -/
+def allocB (p : Pool) : Pool :=
+  let a := p.stat.allocT + 1
+  let cur := a - p.stat.freeT
+  { p with stat := { p.stat with allocT := a, peakA := if cur > p.stat.peakA then cur else p.stat.peakA } }
+
+/-- `free(p)` after the destructor has returned: park the block or hand it to `::free`, statistics -/
+def freeB (p0 : Pool) (b : Nat) : Pool :=
   let p1 : Pool :=
     if p0.freeNum < p0.keep then
       let n := p0.freeNum + 1
@@ -208,6 +209,12 @@ def free (p : Pool) (b : Nat) : Pool :=
                 stat := { p0.stat with peakF := if n > p0.stat.peakF then n else p0.stat.peakF } }
     else { p0 with released := b :: p0.released }
   { p1 with stat := { p1.stat with freeT := p1.stat.freeT + 1 } }
+
+def ctorEnter (p : Pool) : Pool := { p with ctor := p.ctor + 1 }
+def dtorEnter (p : Pool) : Pool := { p with dtor := p.dtor + 1 }
+
+/-- `free(p)` of an object whose destructor does nothing to the pool -/
+def free (p : Pool) (b : Nat) : Pool := p.dtorEnter.freeB b
 
 /-- `~ObjectPool()` followed by the construction of a new pool `ObjectPool(keep)` in the same
 environment -/
@@ -217,55 +224,120 @@ def renew (p : Pool) (keep : Nat) : Pool :=
 
 end Pool
 
-/-- a pool together with the user's object slots: `slots[h] = some (block, value)` -/
+/-- a call of `alloc`/`free` that has started and not yet returned: the constructor / destructor of
+the probe object is running (and may call the same pool) -/
+inductive Frame where
+  | allocF (h v blk : Nat)     -- constructing, in block `blk`, the object destined for slot `h`
+  | freeF (h blk : Nat)        -- destroying the object that was in slot `h`
+deriving Repr, DecidableEq
+
+def Frame.blk : Frame → Nat
+  | .allocF _ _ b => b
+  | .freeF _ b => b
+
+def Frame.isAlloc : Frame → Bool
+  | .allocF _ _ _ => true
+  | .freeF _ _ => false
+
+/-- the slot an `alloc` in progress will store its result in -/
+def Frame.target : Frame → Option Nat
+  | .allocF h _ _ => some h
+  | .freeF _ _ => none
+
+/-- a pool, the user's object slots (`slots[h] = some (block, value)`: a completely constructed
+object), the calls in progress (innermost first), and the depth of the nested calls being skipped
+because their outermost one was not applicable -/
 structure PoolSys where
   pool  : Pool := {}
   slots : List (Option (Nat × Nat)) := []
+  stack : List Frame := []
+  skip  : Nat := 0
 deriving Repr, DecidableEq
 
 def nPoolSlots : Nat := 16
 
 def PoolSys.init : PoolSys := { slots := List.replicate nPoolSlots none }
 
+/-- the pool API seen as events: a call begins, the constructor/destructor runs (the events in
+between are the pool calls IT makes), the call ends -/
+inductive PEv where
+  | abeg (h v : Nat)     -- `alloc(v, …)` enters: block taken, constructor entered
+  | aend                 -- the constructor has returned: statistics, pointer stored in slot h
+  | fbeg (h : Nat)       -- `free(slot h)` enters: destructor entered
+  | fend                 -- the destructor has returned: block parked / released, statistics
+deriving Repr, DecidableEq
+
 inductive PoolOp where
-  | alloc (h : Nat) (v : Nat)
-  | free (h : Nat)
+  | evs (l : List PEv)          -- one (possibly nested) call tree
   | renew (keep : Nat)          -- frees every live object through the old pool first
   | drop (keep : Nat)           -- destroys the pool while objects are live: `~ObjectPool()` runs no
                                 -- destructor and returns only the parked blocks; the objects are abandoned
 deriving Repr, DecidableEq
 
+/-- blocks holding a completely constructed object -/
 def PoolSys.liveBlocks (s : PoolSys) : List Nat := s.slots.filterMap (fun o => o.map (·.1))
+
+/-- blocks in use: live objects and objects under construction / destruction -/
+def PoolSys.inUse (s : PoolSys) : List Nat := s.liveBlocks ++ s.stack.map Frame.blk
+
+/-- slot `h` is the destination of an `alloc` in progress -/
+def PoolSys.reserved (s : PoolSys) (h : Nat) : Bool :=
+  s.stack.any fun f => f.target == some h
+
+/-- one event; `some b` = an object starts being constructed in block `b` -/
+def PoolSys.ev (s : PoolSys) : PEv → PoolSys × Option Nat
+  | .abeg h v =>
+      if s.skip > 0 then ({ s with skip := s.skip + 1 }, none) else
+      match s.slots[h]? with
+      | some none =>
+          if s.reserved h then ({ s with skip := 1 }, none) else
+          let r := s.pool.allocA
+          ({ s with pool := r.1.ctorEnter, stack := .allocF h v r.2 :: s.stack }, some r.2)
+      | _ => ({ s with skip := 1 }, none)       -- slot busy / out of range: the call (and what it nests) is not made
+  | .aend =>
+      if s.skip > 0 then ({ s with skip := s.skip - 1 }, none) else
+      match s.stack with
+      | .allocF h v b :: rest =>
+          ({ s with pool := s.pool.allocB, slots := s.slots.set h (some (b, v)), stack := rest }, none)
+      | _ => (s, none)
+  | .fbeg h =>
+      if s.skip > 0 then ({ s with skip := s.skip + 1 }, none) else
+      match s.slots[h]? with
+      | some (some (b, _)) =>
+          ({ s with pool := s.pool.dtorEnter, slots := s.slots.set h none, stack := .freeF h b :: s.stack }, none)
+      | _ => ({ s with skip := 1 }, none)
+  | .fend =>
+      if s.skip > 0 then ({ s with skip := s.skip - 1 }, none) else
+      match s.stack with
+      | .freeF _ b :: rest => ({ s with pool := s.pool.freeB b, stack := rest }, none)
+      | _ => (s, none)
+
+def PoolSys.runEvs (s : PoolSys) : List PEv → PoolSys
+  | [] => s
+  | e :: es => ((s.ev e).1).runEvs es
 
 def PoolSys.freeSlots (s : PoolSys) : List Nat → PoolSys
   | [] => s
   | h :: hs =>
       match s.slots[h]? with
-      | some (some (b, _)) => ({ pool := s.pool.free b, slots := s.slots.set h none } : PoolSys).freeSlots hs
+      | some (some (b, _)) => ({ s with pool := s.pool.free b, slots := s.slots.set h none } : PoolSys).freeSlots hs
       | _ => s.freeSlots hs
 
-/-- result: new state and `some block` when an object was constructed in `block` -/
-def PoolSys.step (s : PoolSys) : PoolOp → PoolSys × Option Nat
-  | .alloc h v =>
-      match s.slots[h]? with
-      | some none =>
-          let (p, b) := s.pool.alloc
-          ({ pool := p, slots := s.slots.set h (some (b, v)) }, some b)
-      | _ => (s, none)        -- slot busy / out of range: nothing happens
-  | .free h =>
-      match s.slots[h]? with
-      | some (some (b, _)) => ({ pool := s.pool.free b, slots := s.slots.set h none }, none)
-      | _ => (s, none)
+/-- `renew`/`drop` are made between calls only -/
+def PoolSys.step (s : PoolSys) : PoolOp → PoolSys
+  | .evs l => s.runEvs l
   | .renew k =>
+      if s.stack ≠ [] then s else
       let s1 := s.freeSlots (List.range s.slots.length)
-      ({ s1 with pool := s1.pool.renew k }, none)
+      { s1 with pool := s1.pool.renew k }
   | .drop k =>
-      ({ pool := { s.pool.renew k with leaked := s.pool.leaked + s.liveBlocks.length },
-         slots := List.replicate s.slots.length none }, none)
+      if s.stack ≠ [] then s else
+      { s with pool := { s.pool.renew k with leaked := s.pool.leaked + s.liveBlocks.length },
+               slots := List.replicate s.slots.length none }
 
 def PoolSys.run (s : PoolSys) : List PoolOp → PoolSys
   | [] => s
-  | op :: ops => ((s.step op).1).run ops
+  | op :: ops => (s.step op).run ops
 
 /-! ## Fd -/
 
